@@ -77,7 +77,7 @@ CLAIMED = {
              "(exhaustive 65 536-point sweep for escapes, lifted by all_below_spec); legal names unchanged, colon "
              "always coerced; round trip and injectivity for names without an escape pattern (PARTIAL: for the "
              "single-pass decoder; the code's set-order replacement is modelled and tied by correspondence but its "
-             "order-independence is not proved); the comment loop terminates for every input (two passes suffice) "
+             "order-independence is not proved; proved instead: on an encoded name findall returns exactly the encoder's escapes, in order, and unescapeChar inverts each); coerceCharacters removes every form feed and changes nothing else; the comment loop terminates for every input (two passes suffice) "
              "and the result has no '--'/trailing '-'; coerced public identifiers contain only PubidChars for ALL "
              "code points. Every BMP code point in both positions is additionally checked against expat on every run.",
         design_ref="DESIGN.md 3 C20",
